@@ -121,9 +121,9 @@ PROPS = {
         "explanation": "lexer theorems (text scanning vs the reference scanner, tag-free identity, string literals) + exhaustive short strings and random interleavings compared with the concatenation of texts and values",
     },
     "C09": {
-        "level": "proof", "cone": ["model/Ctx.v", "model/Eval.v", "proofs/CtxProofs.v", "proofs/EvalProofs.v", "props/C09.v"],
-        "trusted_base": COMMON_TB + ["model/Eval.v + model/Ctx.v transcribe the evaluator's scope handling (c.ctx swapping with deferred restore, New(), the data copy in for / index-callee / chained calls, BlockWith, contentFor closures, partial) ; tied to the code by the render correspondence"], "assumptions": ["helpers in a body do not write to outer context handles they were given (true of all shipped helpers)"],
-        "explanation": "frame theorems on the model (bindings of pre-existing contexts unchanged by Set on a fresh child, cur restored) + generated scope nestings judged against an environment-chain reference",
+        "level": "proof", "cone": ["model/Ctx.v", "model/Eval.v", "proofs/CtxProofs.v", "proofs/EvalProofs.v", "proofs/ScopeProofs.v", "proofs/FrameProofs.v", "props/C09.v"],
+        "trusted_base": COMMON_TB + ["model/Eval.v + model/Ctx.v transcribe the evaluator's scope handling (c.ctx swapping with deferred restore, New(), the data copy in for / index-callee / chained calls, BlockWith, contentFor closures, partial) ; tied to the code by the render correspondence"], "assumptions": ["Go helpers outside the modelled set do not write to context handles other than the one they are given (true of all shipped helpers; the modelled ones are covered by the theorems)"],
+        "explanation": "two global invariants of the evaluator model proved by induction on fuel through all 27 mutually recursive functions: (ScopeProofs) the current scope is restored after every evaluation on the value and on the error path; (FrameProofs) of the frames that existed, only the current one can change, and for / partial / contentOf / block-with-data / function bodies change none, hence every name looked up afterwards has its old value + generated scope nestings judged against an environment-chain reference",
     },
     "C16": {
         "level": "proof", "cone": ["model/Eval.v", "proofs/EvalProofs.v", "props/C16.v"],
